@@ -36,7 +36,9 @@ P = {}
 STATS = Counter()
 LAST = {}
 
-A_SPELL = ["/r/src/a.c", "/r/src/../src/a.c", "/r/lnk_a.c", "/r/dl/a.c"]          # dl -> src (directory link), lnk_a.c -> src/a.c
+# dl -> src (directory link), lnk_a.c -> src/a.c, deep -> src/sub (a link to a deeper directory: "deep/../a.c" is
+# physically src/a.c although it collapses lexically to /r/a.c, which exists as a different file)
+A_SPELL = ["/r/src/a.c", "/r/src/../src/a.c", "/r/lnk_a.c", "/r/dl/a.c", "/r/deep/../a.c"]
 B_SPELL = ["/r/src/b.c", "/r/src/./b.c", "/r/dl/b.c", "/r/src/sub/../b.c"]
 I_SPELL = ["/r/src/sub", "/r/dl/sub", "/r/src/sub/../sub"]
 INC_SPELL = ['#include "sub/h.h"', "#include <h.h>", '#include "sub/../sub/h.h"']
@@ -49,12 +51,13 @@ def _build(inc_a, inc_b):
         # the body behaves differently on a second pass, so processing the #pragma once header twice is visible
         "/r/src/sub/h.h": ["#pragma once", "#ifdef H", "@", "#endif", "#define H", "#ifdef X", "@", "#else", "@", "#endif"],
     }
-    links = {"/r/lnk_a.c": "/r/src/a.c", "/r/dl": "/r/src"}
+    files["/r/a.c"] = ["@", "#ifdef DECOY", "@", "#endif"]  # decoy at the lexically collapsed path of /r/deep/../a.c
+    links = {"/r/lnk_a.c": "/r/src/a.c", "/r/dl": "/r/src", "/r/deep": "/r/src/sub"}
     return files, links
 
 
 def _pre(sa, sb, si, ia, ib):
-    return 0 <= sa < 4 and 0 <= sb < 4 and 0 <= si < 3 and 0 <= ia < 3 and 0 <= ib < 3 and sa == P["fix"][0] and si == P["fix"][1]
+    return 0 <= sa < 5 and 0 <= sb < 4 and 0 <= si < 3 and 0 <= ia < 3 and 0 <= ib < 3 and sa == P["fix"][0] and si == P["fix"][1]
 
 
 def h_alias(sa: int, sb: int, si: int, ia: int, ib: int, linkmember: bool, dx: bool) -> bool:
@@ -63,7 +66,7 @@ def h_alias(sa: int, sb: int, si: int, ia: int, ib: int, linkmember: bool, dx: b
     post: _
     """
     idx = []
-    for v, n in ((sa, 4), (sb, 4), (si, 3), (ia, 3), (ib, 3)):
+    for v, n in ((sa, 5), (sb, 4), (si, 3), (ia, 3), (ib, 3)):
         for k in range(n):
             if v == k:
                 idx.append(k)
@@ -166,7 +169,7 @@ def replay(obd, cex):
 
 def obligations(tier, known):
     return [Ob(id="alias/cmd%d-inc%d" % (a, i), kind="ch", module=__name__, func="h_alias", params=dict(fix=[a, i]), timeout=900,
-               group="alias") for a in range(4) for i in range(3)]
+               group="alias") for a in range(5) for i in range(3)]
 
 
 CLAIM = ("For every combination of path spellings (canonical, with redundant segments, through a file symlink, through a directory symlink) at "
